@@ -1142,7 +1142,10 @@ class WebSocketProtocol13(WebSocketProtocol):
             # Compression flag is present in the first frame's header,
             # but we can't decompress until we have all the frames of
             # the message.
-            self._frame_compressed = bool(reserved_bits & self.RSV1)
+            # Control frames may be interleaved with the fragments of a
+            # message and must not disturb its per-message state.
+            if not opcode_is_control:
+                self._frame_compressed = bool(reserved_bits & self.RSV1)
             reserved_bits &= ~self.RSV1
         if reserved_bits:
             # client is using as-yet-undefined extensions; abort
@@ -1218,7 +1221,7 @@ class WebSocketProtocol13(WebSocketProtocol):
         if self.client_terminated:
             return None
 
-        if self._frame_compressed:
+        if self._frame_compressed and opcode in (0x1, 0x2):
             assert self._decompressor is not None
             try:
                 data = self._decompressor.decompress(data)
